@@ -579,6 +579,9 @@ def fam_tree(v, n, model):
                 op = {"op": "world", "w": wid, "do": "getter_paths", "s": s, "config": cfg, "enc": rng.choice(["str", "uri", "none"])}
                 if rng.random() < 0.5:
                     op["attributes"] = rng.sample(["comment", "frames", "sid", "nope"], rng.randint(1, 3))
+                if cfg == default and rng.random() < 0.5:     # the same query routed by GetFromAll
+                    op = dict(op, do="getter_all")
+                    del op["config"]
                 ops.append(op)
             elif x < 0.45:
                 ops.append({"op": "world", "w": wid, "do": "find_paths", "s": s, "config": cfg})
@@ -598,6 +601,11 @@ def fam_tree(v, n, model):
             op = {"op": "world", "w": wid, "do": do, "sid": s}
             if do == "get_last":
                 op["key"] = rng.choice([None, "version", fields[i - 1][0], "task"])
+            if do == "get_data" and cfg == default and rng.random() < 0.4:
+                do = op["do"] = "get_data_all"
+                op["enc"] = rng.choice(["str", "uri", "none"])
+                if rng.random() < 0.5:
+                    op["attributes"] = rng.sample(["comment", "frames", "sid", "nope"], rng.randint(1, 3))
             if do == "get_data":
                 op["config"] = cfg
                 op["enc"] = rng.choice(["str", "uri", "none"])
